@@ -36,13 +36,13 @@ def partialset(t, order=1, mask=None, bounds=None):
     max_order = max(order)
 
     def diff(core, n):
-        if core.shape[1] == 1:
+        if core.shape[-2] == 1:
             raise ValueError(
                 "Tensor size {} along dimension {} not enough to compute high-order derivative".format(
                     t.shape[n], n
                 )
             )
-        step = (bounds[n][1] - bounds[n][0]) / (core.shape[-2] - 1)
+        step = (bounds[n][1] - bounds[n][0]) / (t.shape[n] - 1)  # Grid step of mode n
         return (core[..., 1:, :] - core[..., :-1, :]) / step
 
     cores = []
@@ -50,6 +50,8 @@ def partialset(t, order=1, mask=None, bounds=None):
     for n in range(t.dim()):
         if t.Us[n] is None:
             stack = [t.cores[n]]
+        elif t.cores[n].dim() == 2:
+            stack = [torch.einsum("jk,aj->ak", (t.cores[n], t.Us[n]))]
         else:
             stack = [torch.einsum("ijk,aj->iak", (t.cores[n], t.Us[n]))]
         idx = torch.zeros([t.shape[n]])
